@@ -614,3 +614,43 @@ func (c *Ctx) checkFactsStable(p *load.Program, w *writerIndex, rule string, fn 
 	}
 	c.R.Pass(rule, key, pos, desc, "all required facts hold on every path and are not invalidated before the sink", facts.Atoms(fs)...)
 }
+
+// resolveThroughReturns follows a call to a static callee that has a single return statement with
+// a single result to that result (which must not depend on the callee's parameters), up to depth.
+func resolveThroughReturns(v ssa.Value, depth int) ssa.Value {
+	for ; depth > 0; depth-- {
+		// a local captured by a closure is spilled: a load of it with a single store is that value
+		if u, ok := v.(*ssa.UnOp); ok && u.Op == token.MUL {
+			if al, ok := u.X.(*ssa.Alloc); ok && al.Referrers() != nil {
+				var stores []*ssa.Store
+				for _, r := range *al.Referrers() {
+					if st, ok := r.(*ssa.Store); ok && st.Addr == al {
+						stores = append(stores, st)
+					}
+				}
+				if len(stores) == 1 {
+					v = stores[0].Val
+				}
+			}
+		}
+		cl, ok := v.(*ssa.Call)
+		if !ok {
+			return v
+		}
+		callee := cl.Call.StaticCallee()
+		if callee == nil || len(callee.Blocks) == 0 || len(callee.Params) != 0 || len(callee.FreeVars) != 0 {
+			return v
+		}
+		var rets []*ssa.Return
+		eachInstr(callee, func(i ssa.Instruction) {
+			if r, ok := i.(*ssa.Return); ok {
+				rets = append(rets, r)
+			}
+		})
+		if len(rets) != 1 || len(rets[0].Results) != 1 {
+			return v
+		}
+		v = rets[0].Results[0]
+	}
+	return v
+}
